@@ -27,4 +27,7 @@ Lemma offset_nonzero_not_id : apply_offset_model (flit 3 1) fzero f1 f1 0 1 = 1.
 Proof. vm_compute. reflexivity. Qed.
 
 Lemma merge_single_id : forall p, merge_single p = p.
-Proof. intros [r g b a]. unfold merge_single, over_u8, div255. cbn [pr pg pb pa]. rewrite !Z.mul_0_l. cbn. rewrite !Z.add_0_r. reflexivity. Qed.
+Proof.
+  intros [r g b a]. unfold merge_single, over_u8, round_div255. cbn [pr pg pb pa].
+  rewrite !Z.mul_0_l, !Z.mul_0_r. change ((0 + 255) / 510) with 0. rewrite !Z.add_0_r. reflexivity.
+Qed.
